@@ -222,7 +222,16 @@ func (r *Run) Sample(v interface{}) {
 	r.mu.Unlock()
 }
 func (r *Run) Assume(s string)               { r.mu.Lock(); r.assumptions = append(r.assumptions, s); r.mu.Unlock() }
-func (r *Run) Extra(k string, v interface{}) { r.mu.Lock(); r.extra[k] = v; r.mu.Unlock() }
+func (r *Run) Extra(k string, v interface{}) {
+	if k == "exhaustive" { // the evidence schema wants a boolean here; descriptions go to exhaustive_scope
+		if _, ok := v.(bool); !ok {
+			k = "exhaustive_scope"
+		}
+	}
+	r.mu.Lock()
+	r.extra[k] = v
+	r.mu.Unlock()
+}
 func (r *Run) Inconclusive(why string)       { r.mu.Lock(); r.incon = append(r.incon, why); r.mu.Unlock() }
 func (r *Run) Violations() int               { r.mu.Lock(); defer r.mu.Unlock(); return r.violations }
 
